@@ -4,7 +4,7 @@
        table of the procedure entry that carries the name of the declaration containing the
        (corrected) cursor position - never another procedure's table;
      - the proposed procedures (kind FUNCTION) are either none or exactly the procedure entries of
-       the global table; the proposed types (kind STRUCT) are none, just `int`, or exactly the type
+       the global table; the proposed types (kind STRUCT) are none or exactly the type
        entries of the global table;
      - outside every declaration (and not behind an unfinished last type declaration) the answer
        is the list of declaration starters, with the `main` snippet iff `main` is not a procedure
@@ -55,7 +55,7 @@ Definition vars_ok (l : option ltable) (items : list item) : Prop :=
 Definition funs_ok (g : gtable) (items : list item) : Prop :=
   filter is_fun items = [] \/ filter is_fun items = search_procedures g.
 Definition types_ok (g : gtable) (items : list item) : Prop :=
-  filter is_struct items = [] \/ filter is_struct items = [item_int] \/ filter is_struct items = search_types g.
+  filter is_struct items = [] \/ filter is_struct items = search_types g.
 
 Definition shape_ok (l : option ltable) (g : gtable) (r : option (list item)) : Prop :=
   match r with
@@ -94,7 +94,7 @@ Ltac filters :=
   rewrite ?filter_app, ?var_vars, ?fun_vars, ?struct_vars, ?var_procs, ?fun_procs, ?struct_procs,
           ?var_types, ?fun_types, ?struct_types;
   cbn [filter is_var is_fun is_struct it_kind snip_if snip_while snip_else snip_var snip_array snip_main
-       snip_proc snip_type item_if item_while item_else item_var item_array item_of item_ref item_int
+       snip_proc snip_type item_if item_while item_else item_var item_array item_of item_ref
        item_proc item_type kw_item snippet app N.eqb Pos.eqb kind_variable kind_function kind_struct
        kind_keyword kind_snippet];
   rewrite ?app_nil_r.
@@ -123,7 +123,7 @@ Qed.
 
 Lemma types_shape l g : shape_ok l g (Some (search_types g)).
 Proof.
-  cbn [shape_ok]. unfold vars_ok, funs_ok, types_ok. repeat split; filters; [now left | now left | now right; right].
+  cbn [shape_ok]. unfold vars_ok, funs_ok, types_ok. repeat split; filters; [now left | now left | now right].
 Qed.
 
 (* ------------------------------------------------------------------------------------------ *)
@@ -239,10 +239,9 @@ Qed.
 Lemma complete_type_shape position toks l g : shape_ok l g (complete_type position toks g).
 Proof.
   unfold complete_type. destruct (token_before toks position) as [last|]; [|exact I].
-  destruct (tk last); try exact I.
-  - apply fixed_shape; reflexivity.
-  - cbn [shape_ok]. unfold vars_ok, funs_ok, types_ok. repeat split; filters; auto.
-  - cbn [shape_ok]. unfold vars_ok, funs_ok, types_ok. repeat split; filters; auto.
+  destruct (tk last); try exact I;
+    first [apply fixed_shape; reflexivity
+          | cbn [shape_ok]; unfold vars_ok, funs_ok, types_ok; repeat split; filters; auto].
 Qed.
 
 Lemma global_shape l g : shape_ok l g (Some (new_global_declaration g)).
